@@ -102,10 +102,29 @@ def ensure_makefile():
         sh("coq_makefile -f _CoqProject -o Makefile", cwd=COQ)
 
 
+def prop_modules(pid):
+    """Props/<pid>.v plus its continuation files Props/<pid>_*.v (e.g. Props/C05_closed.v): all of them hold
+    property theorems of <pid> (same rules: statements + `exact lemma` + Print Assumptions)"""
+    d = os.path.join(COQ, "Props")
+    extra = sorted(f[:-2] for f in os.listdir(d) if f.startswith(pid + "_") and f.endswith(".v"))
+    return [pid] + extra
+
+
 def theorem_names(pid):
-    src = open(os.path.join(COQ, "Props", f"{pid}.v")).read()
-    src = re.sub(r"\(\*.*?\*\)", "", src, flags=re.S)
-    return re.findall(r"^\s*Theorem\s+([A-Za-z0-9_']+)", src, re.M)
+    names = []
+    for m in prop_modules(pid):
+        src = open(os.path.join(COQ, "Props", f"{m}.v")).read()
+        src = re.sub(r"\(\*.*?\*\)", "", src, flags=re.S)
+        names += re.findall(r"^\s*Theorem\s+([A-Za-z0-9_']+)", src, re.M)
+    return names
+
+
+def qualified(pid, name):
+    for m in prop_modules(pid):
+        src = re.sub(r"\(\*.*?\*\)", "", open(os.path.join(COQ, "Props", f"{m}.v")).read(), flags=re.S)
+        if re.search(r"^\s*Theorem\s+" + re.escape(name) + r"\b", src, re.M):
+            return f"MX.Props.{m}.{name}"
+    return name
 
 
 def closure_files(pid):
@@ -121,7 +140,7 @@ def closure_files(pid):
             if not tgt:
                 continue
             deps[tgt[0][:-1]] = [d[:-1] for d in rhs.split() if d.endswith(".vo")]
-        todo, seen = [f"Props/{pid}.v"], set()
+        todo, seen = [f"Props/{m}.v" for m in prop_modules(pid)], set()
         while todo:
             x = todo.pop()
             if x in seen:
@@ -155,11 +174,11 @@ def build_proofs(pid, clean=False, coqchk=False):
     names = theorem_names(pid)
     res["obligations"] = len(names)
     if clean:
-        sh(f"rm -f Props/{pid}.vo Props/{pid}.glob", cwd=COQ)
+        sh(" ; ".join(f"rm -f Props/{m}.vo Props/{m}.glob" for m in prop_modules(pid)), cwd=COQ)
     # trace checkers (Run/*.vo) are needed by the correspondence runs; keep going past other people's breakage
     runs = " ".join("Run/" + f[:-2] + ".vo" for f in sorted(os.listdir(os.path.join(COQ, "Run"))) if f.endswith(".v"))
     sh(f"timeout 3000 make -k -j16 {runs} >/dev/null 2>&1", cwd=COQ)
-    rc, out, err = sh(f"timeout 3000 make -j16 Props/{pid}.vo 2>&1", cwd=COQ)
+    rc, out, err = sh("timeout 3000 make -j16 " + " ".join(f"Props/{m}.vo" for m in prop_modules(pid)) + " 2>&1", cwd=COQ)
     if rc != 0:
         res["error"] = (out + err)[-3000:]
         m = re.search(r'File "\./([^"]+)", line (\d+)', out + err)
@@ -174,9 +193,10 @@ def build_proofs(pid, clean=False, coqchk=False):
     tmp = os.path.join(ROOT, ".cache", f"assume_{pid}.v")
     os.makedirs(os.path.dirname(tmp), exist_ok=True)
     with open(tmp, "w") as f:
-        f.write(f"From MX Require Import Props.{pid}.\n")
+        for m in prop_modules(pid):
+            f.write(f"From MX Require Props.{m}.\n")
         for n in names:
-            f.write(f'Print Assumptions {n}.\n')
+            f.write(f'Print Assumptions {qualified(pid, n)}.\n')
     rc, out, err = sh(f"timeout 600 coqc -noglob -Q {COQ} MX {tmp}")
     if rc != 0:
         res["error"] = "Print Assumptions failed: " + (out + err)[-2000:]
@@ -203,7 +223,7 @@ def build_proofs(pid, clean=False, coqchk=False):
     res["ok"] = discharged == len(names) and len(names) > 0
     if res["ok"] and coqchk:
         # independent re-check of the compiled closure (thorough tier)
-        rc, out, err = sh(f"timeout 2400 coqchk -silent -o -Q . MX MX.Props.{pid} 2>&1", cwd=COQ)
+        rc, out, err = sh("timeout 2400 coqchk -silent -o -Q . MX " + " ".join(f"MX.Props.{m}" for m in prop_modules(pid)) + " 2>&1", cwd=COQ)
         txt = out + err
         m = re.search(r"\* Axioms:(.*?)\n\s*\n", txt, re.S)
         listed = [a.strip() for a in (m.group(1).split("\n") if m else []) if a.strip() and a.strip() != "<none>"]
